@@ -178,3 +178,8 @@ def rule_s3(F):
 def rules(ctx):
     F = ctx["F"]
     return [rule_s1(F), rule_s3(F)]
+
+
+def thorough_rules(ctx):
+    from .. import witness
+    return [witness.rule("C12", "C12.S2", "type-level witnesses: non-Sync / non-Send closures and Val<Rc<_>> are rejected, atomic/Arc twins compile, TypedFunc and List are Send+Sync")]
